@@ -558,6 +558,8 @@ func (t *Topic) runLocal(hub *Hub) {
 		select {
 		case msg := <-t.reg:
 			t.registerSession(msg)
+			// A subscription which ends in a self-ban leaves the topic without sessions.
+			t.restartKillTimerIfIdle()
 
 		case msg := <-t.unreg:
 			t.unregisterSession(msg)
@@ -570,6 +572,8 @@ func (t *Topic) runLocal(hub *Hub) {
 
 		case meta := <-t.meta:
 			t.handleMeta(meta)
+			// A change of permissions may have evicted the last attached session.
+			t.restartKillTimerIfIdle()
 
 		case upd := <-t.supd:
 			t.handleSessionUpdate(upd, &currentUA, uaTimer)
@@ -587,6 +591,13 @@ func (t *Topic) runLocal(hub *Hub) {
 			t.handleTopicTermination(sd)
 			return
 		}
+	}
+}
+
+// restartKillTimerIfIdle starts the countdown to unloading the topic if no sessions are attached to it.
+func (t *Topic) restartKillTimerIfIdle() {
+	if len(t.sessions) == 0 && t.cat != types.TopicCatSys {
+		t.killTimer.Reset(idleMasterTopicTimeout)
 	}
 }
 
